@@ -892,3 +892,183 @@ Proof.
 Qed.
 
 End Main.
+
+(* ---------------------------------------------------------------------------------------------- *)
+(* Corollaries: one attempt, the scan, find                                                       *)
+(* ---------------------------------------------------------------------------------------------- *)
+Section Scan.
+Variable e : env.
+Local Notation n := (tlen e).
+Local Notation e' := (mirror_env e).
+Local Notation mir := (mirror_st e).
+
+Lemma mirror_init_ok : forall p, 0 <= p <= n -> st_ok e {| pos := p; caps := [] |}.
+Proof. intros p Hp. split; [exact Hp|constructor]. Qed.
+
+Theorem mirror_attempt_partial : forall fuel root p, mirror_ok root = true -> 0 <= p <= n ->
+  attempt e' fuel (flip root) (n - p) = map_res (option_map mir) (attempt e fuel root p).
+Proof.
+  intros fuel root p Hr Hp. unfold attempt.
+  change {| pos := n - p; caps := [] |} with (mir {| pos := p; caps := [] |}).
+  rewrite mirror_sem_partial by (try assumption; now apply mirror_init_ok).
+  destruct (sem e fuel root {| pos := p; caps := [] |}) as [[|a l]| | |]; reflexivity.
+Qed.
+
+Lemma mirror_scan_from_partial : forall fuel root rtl cnt p, mirror_ok root = true -> 0 <= p <= n ->
+  scan_from e' fuel cnt (flip root) (negb rtl) (n - p)
+  = map_res (option_map mir) (scan_from e fuel cnt root rtl p).
+Proof.
+  intros fuel root rtl cnt. induction cnt as [|c IH]; intros p Hr Hp; [reflexivity|].
+  cbn [scan_from]. rewrite mirror_attempt_partial by assumption.
+  destruct (attempt e fuel root p) as [[s|]| | |]; cbn [map_res option_map bind]; try reflexivity.
+  rewrite mirror_tlen.
+  replace (if negb rtl then n - p <=? 0 else n <=? n - p) with (if rtl then p <=? 0 else n <=? p)
+    by (destruct rtl; cbn [negb]; lia).
+  destruct (if rtl then p <=? 0 else n <=? p) eqn:E; [reflexivity|].
+  replace (if negb rtl then n - p - 1 else n - p + 1) with (n - (if rtl then p - 1 else p + 1))
+    by (destruct rtl; cbn [negb]; lia).
+  apply IH; [assumption|]. destruct rtl; lia.
+Qed.
+
+(* The scan in direction [rtl] from [start]  =  the scan in the opposite direction of the flipped
+   tree over the reversed text from [n - start]; the match found is the mirror image. *)
+Theorem mirror_find_partial : forall fuel root rtl start prevlen, mirror_ok root = true -> 0 <= start <= n ->
+  find e' fuel (flip root) (negb rtl) (n - start) prevlen
+  = map_res (option_map mir) (find e fuel root rtl start prevlen).
+Proof.
+  intros fuel root rtl start prevlen Hr Hs. unfold find. rewrite mirror_tlen.
+  replace (n - start =? (if negb rtl then 0 else n)) with (start =? (if rtl then 0 else n))
+    by (destruct rtl; cbn [negb]; lia).
+  destruct ((prevlen =? 0) && (start =? (if rtl then 0 else n))) eqn:E; [reflexivity|].
+  replace (if prevlen =? 0 then if negb rtl then n - start - 1 else n - start + 1 else n - start)
+    with (n - (if prevlen =? 0 then if rtl then start - 1 else start + 1 else start))
+    by (destruct (prevlen =? 0), rtl; cbn [negb]; lia).
+  apply mirror_scan_from_partial; [assumption|].
+  destruct (prevlen =? 0) eqn:Ep; [|lia]. destruct rtl; lia.
+Qed.
+
+End Scan.
+
+(* ---------------------------------------------------------------------------------------------- *)
+(* Mirroring is an involution, so the theorem reads in both directions                            *)
+(* ---------------------------------------------------------------------------------------------- *)
+Lemma flip_anchor_invol : forall a, flip_anchor (flip_anchor a) = a.
+Proof. destruct a; reflexivity. Qed.
+
+Lemma mirror_env_invol : forall e, mirror_env (mirror_env e) = e.
+Proof.
+  intros e. destruct e as [t ts ec ez si lo iw ie]. unfold mirror_env, tlen, zlen.
+  cbn [txt tstart ecma endz_strict set_in lower is_word is_eword].
+  rewrite rev_involutive, rev_length. f_equal. lia.
+Qed.
+
+Lemma mirror_span_invol : forall n iv, mirror_span n (mirror_span n iv) = iv.
+Proof. intros n [i l]. unfold mirror_span. cbn [fst snd]. f_equal. lia. Qed.
+
+Lemma mirror_caps_invol : forall n c, mirror_caps n (mirror_caps n c) = c.
+Proof.
+  intros n c. unfold mirror_caps. rewrite map_map. rewrite <- (map_id c) at 2.
+  apply map_ext. intros [g l]. cbn [fst snd]. f_equal.
+  rewrite map_map. rewrite <- (map_id l) at 2. apply map_ext. apply mirror_span_invol.
+Qed.
+
+Lemma mirror_st_invol : forall e s, mirror_st (mirror_env e) (mirror_st e s) = s.
+Proof.
+  intros e [p c]. unfold mirror_st. cbn [pos caps]. rewrite mirror_tlen, mirror_caps_invol.
+  f_equal. lia.
+Qed.
+
+Lemma mirror_span_ok_mirror : forall n iv, span_ok n iv -> span_ok n (mirror_span n iv).
+Proof. intros n [i l] H. unfold span_ok, mirror_span in *. cbn [fst snd] in *. lia. Qed.
+
+Lemma mirror_st_ok_mirror : forall e s, st_ok e s -> st_ok (mirror_env e) (mirror_st e s).
+Proof.
+  intros e s [Hp Hc]. split; rewrite mirror_tlen; cbn [pos caps mirror_st]; [lia|].
+  unfold caps_ok, mirror_caps in *. rewrite Forall_map. eapply Forall_impl; [|exact Hc].
+  intros [g l] Hl. cbn [fst snd] in *. rewrite Forall_map. eapply Forall_impl; [|exact Hl].
+  apply mirror_span_ok_mirror.
+Qed.
+
+(* [flip] is an involution on every tree; the two list cases go through the fuel-free size-free
+   route: a nested induction principle for [node] is avoided by a depth bound. *)
+Fixpoint mirror_depth (t : node) : nat :=
+  match t with
+  | NConcat _ l | NAlternate _ l => S (fold_right (fun x a => Nat.max (mirror_depth x) a) O l)
+  | NLoop _ _ _ _ r | NCapture _ _ _ r | NGroup r | NPosLook _ r | NNegLook _ r | NAtomic r =>
+      S (mirror_depth r)
+  | NBackRefCond _ _ y no =>
+      S (Nat.max (mirror_depth y) (match no with Some x => mirror_depth x | None => O end))
+  | NExprCond _ c y no =>
+      S (Nat.max (mirror_depth c)
+           (Nat.max (mirror_depth y) (match no with Some x => mirror_depth x | None => O end)))
+  | _ => O
+  end.
+
+Lemma mirror_depth_list : forall (P : node -> Prop) d l,
+  (forall t, (mirror_depth t <= d)%nat -> P t) ->
+  (fold_right (fun x a => Nat.max (mirror_depth x) a) O l <= d)%nat -> Forall P l.
+Proof.
+  intros P d l H. induction l as [|x l IH]; intros Hd; [constructor|].
+  cbn [fold_right] in Hd. constructor; [apply H; lia|apply IH; lia].
+Qed.
+
+Lemma mirror_map_id_Forall : forall (f : node -> node) l, Forall (fun x => f x = x) l -> map f l = l.
+Proof. intros f l H. induction H as [|x l Hx _ IH]; [reflexivity|]. cbn [map]. now rewrite Hx, IH. Qed.
+
+Lemma flip_invol_depth : forall d t, (mirror_depth t <= d)%nat -> flip (flip t) = t.
+Proof.
+  induction d as [|d IH]; intros t Hd.
+  - destruct t; cbn [mirror_depth] in Hd; try lia; cbn [flip];
+      rewrite ?flip_opt_invol, ?rev_involutive, ?flip_anchor_invol; reflexivity.
+  - destruct t; cbn [mirror_depth] in Hd; cbn [flip];
+      rewrite ?flip_opt_invol, ?rev_involutive, ?flip_anchor_invol; try reflexivity.
+    + f_equal. rewrite map_map. apply mirror_map_id_Forall.
+      apply (mirror_depth_list _ d); [exact IH|lia].
+    + f_equal. rewrite map_map. apply mirror_map_id_Forall.
+      apply (mirror_depth_list _ d); [exact IH|lia].
+    + rewrite IH by lia. reflexivity.
+    + rewrite IH by lia. reflexivity.
+    + rewrite IH by lia. reflexivity.
+    + rewrite IH by lia. reflexivity.
+    + rewrite IH by lia. reflexivity.
+    + rewrite IH by lia. reflexivity.
+    + rewrite IH by lia. destruct no as [x|]; cbn [option_map]; [rewrite IH by lia|]; reflexivity.
+    + rewrite (IH t1), (IH t2) by lia.
+      destruct no as [x|]; cbn [option_map]; [rewrite IH by lia|]; reflexivity.
+Qed.
+
+Theorem flip_invol : forall t, flip (flip t) = t.
+Proof. intros t. apply (flip_invol_depth (mirror_depth t)). lia. Qed.
+
+Lemma mirror_forallb_Forall : forall (f g : node -> bool) l,
+  Forall (fun x => f x = g x) l -> forallb f l = forallb g l.
+Proof. intros f g l H. induction H as [|x l Hx _ IH]; [reflexivity|]. cbn [forallb]. now rewrite Hx, IH. Qed.
+
+Lemma mirror_forallb_map : forall (f : node -> bool) (g : node -> node) l,
+  forallb f (map g l) = forallb (fun x => f (g x)) l.
+Proof. intros f g l. induction l as [|x l IH]; [reflexivity|]. cbn [map forallb]. now rewrite IH. Qed.
+
+Lemma flip_mirror_ok_depth : forall d t, (mirror_depth t <= d)%nat -> mirror_ok (flip t) = mirror_ok t.
+Proof.
+  induction d as [|d IH]; intros t Hd.
+  - destruct t; cbn [mirror_depth] in Hd; try lia; cbn [flip mirror_ok]; try reflexivity.
+    destruct a; reflexivity.
+  - destruct t; cbn [mirror_depth] in Hd; cbn [flip mirror_ok]; try reflexivity.
+    + destruct a; reflexivity.
+    + rewrite mirror_forallb_map. apply mirror_forallb_Forall.
+      apply (mirror_depth_list _ d); [exact IH|lia].
+    + rewrite mirror_forallb_map. apply mirror_forallb_Forall.
+      apply (mirror_depth_list _ d); [exact IH|lia].
+    + apply IH; lia.
+    + rewrite IH by lia. reflexivity.
+    + apply IH; lia.
+    + apply IH; lia.
+    + apply IH; lia.
+    + apply IH; lia.
+    + rewrite IH by lia. destruct no as [x|]; cbn [option_map opt_forall]; [rewrite IH by lia|]; reflexivity.
+    + rewrite (IH t1), (IH t2) by lia.
+      destruct no as [x|]; cbn [option_map opt_forall]; [rewrite IH by lia|]; reflexivity.
+Qed.
+
+Theorem flip_mirror_ok : forall t, mirror_ok (flip t) = mirror_ok t.
+Proof. intros t. apply (flip_mirror_ok_depth (mirror_depth t)). lia. Qed.
